@@ -38,11 +38,16 @@ MANIFEST = {
             "list (Model/ObserveKey.lean): observation_identity_ignores(_etag) (ETag, OSCORE, Observe and NoCacheKey options "
             "never change the key), observation_identity_exact (equal keys <=> equal cache-key options: numbers, lengths, "
             "values, order), reregistration_same_target_replaces (run level: never two entries of a session whose requests "
-            "have the same cache-key options, whatever tokens/ETags), registration_of_other_target_keeps. M is tied to the "
+            "have the same cache-key options, whatever tokens/ETags), registration_of_other_target_keeps; FETCH registrations "
+            "(RFC 8132): reqKey = method code, FETCH payload with its length, cache-key options (fix a4f9bc4); "
+            "request_identity_exact (equal keys <=> same method, same cache-key options and for FETCH the same payload), "
+            "reregistration_replaces_requests (run level: two entries of a session never stem from the same request), "
+            "registration_of_other_request_keeps, fetch_observations_with_different_payloads_are_distinct, "
+            "get_and_fetch_observations_are_distinct. M is tied to the "
             "compiled code by exact trace equality on an H-sim harness (real server context, 1..3 resources, 1..4 real client "
             "contexts whose token values are per-client or shared between clients and 0..8 bytes long - the empty token, tokens "
-            "that are proper prefixes of one another or differ in trailing zero bytes only -, requests with and without ETag / Size1 "
-            "options, virtual clock, scripted network): every datagram, every subscriber list, counter, flag, session "
+            "that are proper prefixes of one another or differ in trailing zero bytes only -, GET and FETCH requests (four payloads) "
+            "with and without ETag / Size1 options, virtual clock, scripted network): every datagram, every subscriber list, counter, flag, session "
             "ref/con_active/tx_mid and send-queue deadline after every event; the implementation's trace is in addition "
             "judged directly against the property by an oracle that never looks at M.",
     "note": "partial: (i) Reset — no_notification_after_reset_run_partial covers a Reset naming a queued CON or the entry's "
